@@ -1,3 +1,8 @@
 //! Verification hooks (cargo feature `verif_hooks`, off by default). Nothing in
 //! here is compiled into a normal build.
 pub mod sync;
+
+/// Called between the built-in registration stages of `init()`.
+pub fn init_stage(stage: u32) {
+    sync::emit(sync::Event::InitStage { stage })
+}
